@@ -3,7 +3,7 @@ which callee contracts assumed, which loop contracts injected and which back end
 
 A *job* is one goto-cc/goto-instrument/cbmc run; each CBMC property in it is one obligation.
 """
-import re
+import re, os
 
 TRUSTED_BASE = [
     "A1 CBMC 6.11 / goto-instrument DFCC and the SAT/SMT back ends (minisat, kissat, cvc5)",
@@ -80,3 +80,39 @@ J(id="C13.check_mask", prop="C13", cls="width-complete", bound="loops bounded by
   cbmc=["--unwind", "130", "--unwinding-assertions"],
   expect=[r"irc_check_mask\.postcondition", r"irc_check_mask\.undefined-shift"],
   functions=["irc_check_mask"], replay=NATIVE_MISC, cost=1)
+
+# =========================================================================== C19
+PROPS["C19"] = dict(
+    level="model_checking",
+    explanation="comparators: contracts enforced over the whole key domain (proof class); tree operations: inductive "
+                "step 'well-formed set + one real operation => well-formed set with the abstract result' from every "
+                "well-formed tree of up to N nodes (bounded class, N in the job id)",
+)
+NATIVE_SET = dict(stubs=["stubs/native_env.c"], extra_srcs=["src/common.c"])
+for fn, chk in (("int", ["ptr", "ovf"]), ("voidp", ["ptr"]), ("ptr", ["ptr"])):
+    J(id="C19.compare_" + fn, prop="C19", cls="proof", srcs=["src/set.c"], harness="harness/h_set_cmp.c",
+      entry="h_compare_" + fn, enforce=["set_compare_" + fn], checks=chk,
+      expect=[r"set_compare_%s\.postcondition" % fn], functions=["set_compare_" + fn], replay=NATIVE_SET)
+J(id="C19.compare_charp.len8", prop="C19", cls="bounded", bound="strings of at most 8 bytes (strcasecmp is CBMC's libc model, S2)",
+  srcs=["src/set.c"], harness="harness/h_set_cmp.c", entry="h_compare_charp", checks=["ptr"],
+  cbmc=["--unwind", "10", "--unwinding-assertions"], functions=["set_compare_charp"], replay=NATIVE_SET,
+  assumptions=["S2 strcasecmp is CBMC's built-in C-locale model"])
+
+
+def _set_jobs(tier, seed):
+    out = []
+    ns = (3, 4) if tier == "quick" else (4, 5)
+    for n in ns:
+        for op in ("insert", "remove", "find", "lower", "clear"):
+            out.append(dict(
+                id="C19.set_%s.N%d" % (op, n), prop="C19", cls="bounded",
+                bound="every well-formed set of at most %d elements (all BST shapes, full int key range), one operation" % n,
+                srcs=["src/set.c"], harness="harness/h_set_ops.c", entry="h_set_" + op, defines=["SETN=%d" % n],
+                checks=["ptr", "ovf"], solver=os.environ.get("SETSOLVER", "minisat"),
+                cbmc=["--unwind", str(n + 3), "--unwinding-assertions", "--no-malloc-may-fail"],
+                functions=["set_" + op, "set_splay", "set_first", "set_dispose_node"], replay=NATIVE_SET,
+                timeout=3000, mem=14, cost=10 ** (n - 2)))
+    return out
+
+
+GENERATORS.append(_set_jobs)
